@@ -357,3 +357,16 @@ def casc(job):
         return vlib.hexs(out[4:]) + ' ' + ';'.join('%d.%d.%d.%d=%s' % (p + (vlib.hexs(x),)) for p, x in paths)
     except Exception as e:  # noqa
         return 'exc ' + vlib.exc_name(e)
+
+
+def setmany(job):
+    """(version, segment, [(attribute, value), ...]) -> to_er7() after assigning every value on a fresh Segment"""
+    from hl7apy.core import Segment
+    v, seg, pairs = job
+    try:
+        s = Segment(seg, version=v, validation_level=vlib.level(False))
+        for a, val in pairs:
+            setattr(s, a, val)
+        return 'ok ' + vlib.hexs(s.to_er7())
+    except Exception as e:  # noqa
+        return 'exc ' + vlib.exc_name(e)
